@@ -3,7 +3,7 @@
 
 use core::num::Wrapping;
 use vek::ops::ColorComponent;
-use vek::vec::repr_c::{Rgba, Vec4};
+use vek::vec::repr_c::{Rgb, Rgba, Vec4};
 use vek::vec::ShuffleMask4;
 
 macro_rules! shuffle_body {
@@ -78,4 +78,41 @@ fn c19_q_color_component_full() {
     assert!(<Wrapping<i16> as ColorComponent>::full() == Wrapping(i16::MAX));
     assert!(<Wrapping<i32> as ColorComponent>::full() == Wrapping(i32::MAX));
     assert!(<Wrapping<i64> as ColorComponent>::full() == Wrapping(i64::MAX));
+}
+
+// ---- colour helpers at the concrete component types (machine semantics of `full() - x`) --------------------------
+macro_rules! inv_int {
+    ($T:ty) => {{
+        let (r, g, b, a): ($T, $T, $T, $T) = (kani::any(), kani::any(), kani::any(), kani::any());
+        // (a negative signed component has no inverse in the type: MAX - x overflows; outside the claim)
+        kani::assume(r >= 0 && g >= 0 && b >= 0);
+        let c = Rgba::new(r, g, b, a).inverted_rgb();
+        assert!(c.r == <$T>::MAX - r && c.g == <$T>::MAX - g && c.b == <$T>::MAX - b && c.a == a, "Rgba::inverted_rgb = (MAX - r, MAX - g, MAX - b, a)");
+        assert!(c.inverted_rgb() == Rgba::new(r, g, b, a), "involution");
+        let d = Rgb::new(r, g, b).inverted_rgb();
+        assert!(d.r == <$T>::MAX - r && d.g == <$T>::MAX - g && d.b == <$T>::MAX - b, "Rgb::inverted_rgb");
+    }};
+}
+/// K: fns=Rgba::inverted_rgb,Rgb::inverted_rgb,ColorComponent::full | inst=Rgba/Rgb<u8,i8,u16,i16,u32,i32,u64,i64> | bound=ALL component values (signed types: non-negative colour components, any alpha)
+/// K: asserts=inverted_rgb is MAX - x per colour component with alpha untouched, and an involution, at every integer component type
+#[kani::proof]
+fn c19_q_inverted_rgb_ints() {
+    let sel: u8 = kani::any();
+    kani::cover!(sel % 8 == 1, "a signed type");
+    match sel % 8 {
+        0 => inv_int!(u8), 1 => inv_int!(i8), 2 => inv_int!(u16), 3 => inv_int!(i16),
+        4 => inv_int!(u32), 5 => inv_int!(i32), 6 => inv_int!(u64), _ => inv_int!(i64),
+    }
+}
+/// K: fns=Rgba::inverted_rgb,Rgb::inverted_rgb | inst=Rgba/Rgb<f32> | bound=ALL finite component values
+/// K: asserts=inverted_rgb is 1 - x per colour component with alpha untouched
+#[kani::proof]
+fn c19_q_inverted_rgb_f32() {
+    let (r, g, b, a): (f32, f32, f32, f32) = (kani::any(), kani::any(), kani::any(), kani::any());
+    kani::assume(r.is_finite() && g.is_finite() && b.is_finite() && !a.is_nan());
+    kani::cover!(r > 0.25 && r < 0.75, "ordinary colour");
+    let c = Rgba::new(r, g, b, a).inverted_rgb();
+    assert!(c.r == 1.0 - r && c.g == 1.0 - g && c.b == 1.0 - b && c.a == a);
+    let d = Rgb::new(r, g, b).inverted_rgb();
+    assert!(d.r == 1.0 - r && d.g == 1.0 - g && d.b == 1.0 - b);
 }
